@@ -163,6 +163,7 @@ class State(object):
         self.mod_targets = None  # evaluated modifies of the function under verification
         self.frames = None       # [(targets, alloc threshold)]: function frame, then enclosing loops
         self.pending_writes = []
+        self.call_log = []
         self.trace = []
         self.ghost = {}
         self.scope_depth = None
